@@ -117,6 +117,9 @@ h_NC_var_shape(void)
     var->shape   = NULL;
     var->dsizes  = NULL;
     g_old_shape_blk = g_old_dsizes_blk = NULL;
+#ifdef VS_NO_OLD /* freshly created variable only (shape == dsizes == NULL on entry) */
+    H4V_ASSUME(!have_old);
+#endif
     if (have_old) { /* re-compilation of an already shaped variable (SDsetdimname etc.) */
         var->shape  = malloc(3 * sizeof(unsigned long));
         var->dsizes = malloc(3 * sizeof(unsigned long));
